@@ -54,37 +54,50 @@ static std::vector<Subject> subjects() {
     std::vector<Subject> v;
     v.push_back({"ValueIteration", true, [](uint64_t ps, int mode) {
         A::MDP::ValueIteration vi(6, 0.0);
-        if (mode) { auto m0 = toDense(mdpOf(ps ^ 0xABCDEF, 1)); vi(m0); }
-        auto m = toDense(mdpOf(ps)); auto [var, vf, q] = vi(m);
+        if (mode == 1) { auto m0 = toDense(mdpOf(ps ^ 0xABCDEF, 1)); vi(m0); }
+        auto m = toDense(mdpOf(ps)); if (mode == 2) vi(m); auto [var, vf, q] = vi(m);
         Out o; o.push_back(var); flat(o, vf.values); for (auto a : vf.actions) o.push_back((double)a); flat(o, q); return o; }});
+    v.push_back({"ValueIteration(warm_start)", true, [](uint64_t ps, int mode) {
+        // a configured start value function of the right size: every call on this object must start from it
+        auto t = mdpOf(ps); auto m = toDense(t);
+        A::MDP::ValueFunction start{A::MDP::Values(t.S), A::MDP::Actions(t.S, 0)};
+        { Rng r(ps ^ 31337); for (size_t s = 0; s < t.S; ++s) start.values[s] = dyadicReward(r); }
+        A::MDP::ValueIteration vi(5, (ps & 2) ? 0.0 : 0.01, start);
+        if (mode == 1) { auto m0 = toDense(mdpOf(ps ^ 0xABCDEF, 1)); vi(m0); }
+        if (mode == 2) { vi(m); }
+        auto [var, vf, q] = vi(m);
+        Out o; o.push_back(var); flat(o, vf.values); for (auto a : vf.actions) o.push_back((double)a); flat(o, q);
+        // the configured parameter is part of the object's observable state
+        const auto & kept = vi.getValueFunction(); o.push_back((double)kept.values.size()); flat(o, kept.values);
+        return o; }});
     v.push_back({"PolicyIteration", true, [](uint64_t ps, int mode) {
         A::MDP::PolicyIteration pi(50, 1e-6);
-        if (mode) { auto m0 = toDense(mdpOf(ps ^ 0xABCDEF, 1)); pi(m0); }
-        auto m = toDense(mdpOf(ps)); auto q = pi(m); Out o; flat(o, q); return o; }});
+        if (mode == 1) { auto m0 = toDense(mdpOf(ps ^ 0xABCDEF, 1)); pi(m0); }
+        auto m = toDense(mdpOf(ps)); if (mode == 2) pi(m); auto q = pi(m); Out o; flat(o, q); return o; }});
     v.push_back({"IncrementalPruning", true, [](uint64_t ps, int mode) {
         A::POMDP::IncrementalPruning s(2, 0.0);
-        if (mode) { auto m0 = toDense(pomdpOf(ps ^ 0xABCDEF, 1)); s(m0); }
-        auto m = toDense(pomdpOf(ps)); auto [var, vf] = s(m); Out o; o.push_back(var); flat(o, vf); return o; }});
+        if (mode == 1) { auto m0 = toDense(pomdpOf(ps ^ 0xABCDEF, 1)); s(m0); }
+        auto m = toDense(pomdpOf(ps)); if (mode == 2) s(m); auto [var, vf] = s(m); Out o; o.push_back(var); flat(o, vf); return o; }});
     v.push_back({"Witness", true, [](uint64_t ps, int mode) {
         A::POMDP::Witness s(2, 0.0);
-        if (mode) { auto m0 = toDense(pomdpOf(ps ^ 0xABCDEF, 1)); s(m0); }
-        auto m = toDense(pomdpOf(ps)); auto [var, vf] = s(m); Out o; o.push_back(var); flat(o, vf); return o; }});
+        if (mode == 1) { auto m0 = toDense(pomdpOf(ps ^ 0xABCDEF, 1)); s(m0); }
+        auto m = toDense(pomdpOf(ps)); if (mode == 2) s(m); auto [var, vf] = s(m); Out o; o.push_back(var); flat(o, vf); return o; }});
     v.push_back({"LinearSupport", true, [](uint64_t ps, int mode) {
         A::POMDP::LinearSupport s(2, 0.0);
-        if (mode) { auto m0 = toDense(pomdpOf(ps ^ 0xABCDEF, 1)); s(m0); }
-        auto m = toDense(pomdpOf(ps)); auto [var, vf] = s(m); Out o; o.push_back(var); flat(o, vf); return o; }});
+        if (mode == 1) { auto m0 = toDense(pomdpOf(ps ^ 0xABCDEF, 1)); s(m0); }
+        auto m = toDense(pomdpOf(ps)); if (mode == 2) s(m); auto [var, vf] = s(m); Out o; o.push_back(var); flat(o, vf); return o; }});
     v.push_back({"FastInformedBound", true, [](uint64_t ps, int mode) {
         A::POMDP::FastInformedBound s(20, 1e-6);
-        if (mode) { auto m0 = toDense(pomdpOf(ps ^ 0xABCDEF, 1)); s(m0); }
-        auto m = toDense(pomdpOf(ps)); auto [var, q] = s(m); Out o; o.push_back(var); flat(o, q); return o; }});
+        if (mode == 1) { auto m0 = toDense(pomdpOf(ps ^ 0xABCDEF, 1)); s(m0); }
+        auto m = toDense(pomdpOf(ps)); if (mode == 2) s(m); auto [var, q] = s(m); Out o; o.push_back(var); flat(o, q); return o; }});
     v.push_back({"QMDP", true, [](uint64_t ps, int mode) {
         A::POMDP::QMDP s(20, 1e-6);
-        if (mode) { auto m0 = toDense(pomdpOf(ps ^ 0xABCDEF, 1)); s(m0); }
-        auto m = toDense(pomdpOf(ps)); auto [var, vf, q] = s(m); Out o; o.push_back(var); flat(o, vf); flat(o, q); return o; }});
+        if (mode == 1) { auto m0 = toDense(pomdpOf(ps ^ 0xABCDEF, 1)); s(m0); }
+        auto m = toDense(pomdpOf(ps)); if (mode == 2) s(m); auto [var, vf, q] = s(m); Out o; o.push_back(var); flat(o, vf); flat(o, q); return o; }});
     v.push_back({"BlindStrategies", true, [](uint64_t ps, int mode) {
         A::POMDP::BlindStrategies s(20, 1e-6);
-        if (mode) { auto m0 = toDense(pomdpOf(ps ^ 0xABCDEF, 1)); s(m0, true); }
-        auto m = toDense(pomdpOf(ps)); auto [var, vl] = s(m, (ps & 1) != 0); Out o; o.push_back(var); flat(o, vl); return o; }});
+        if (mode == 1) { auto m0 = toDense(pomdpOf(ps ^ 0xABCDEF, 1)); s(m0, true); }
+        auto m = toDense(pomdpOf(ps)); if (mode == 2) s(m, (ps & 1) != 0); auto [var, vl] = s(m, (ps & 1) != 0); Out o; o.push_back(var); flat(o, vl); return o; }});
     v.push_back({"PBVI", false, [](uint64_t ps, int) {
         A::POMDP::PBVI s(6, 2, 0.0);
         auto m = toDense(pomdpOf(ps)); auto [var, vf] = s(m); Out o; o.push_back(var); flat(o, vf); return o; }});
@@ -142,8 +155,9 @@ static std::vector<Subject> subjects() {
             }
             return std::make_pair(space, rules);
         };
-        if (mode) { auto [sp0, r0] = mk(ps ^ 0xABCDEF, 1); auto g0 = FB::MakeGraph<FB::VariableElimination>()(r0, sp0); FB::UpdateGraph<FB::VariableElimination>()(g0, r0, sp0); ve(sp0, g0); }
-        auto [sp, rules] = mk(ps, 0); auto g = FB::MakeGraph<FB::VariableElimination>()(rules, sp); FB::UpdateGraph<FB::VariableElimination>()(g, rules, sp); auto [act, val] = ve(sp, g);
+        if (mode == 1) { auto [sp0, r0] = mk(ps ^ 0xABCDEF, 1); auto g0 = FB::MakeGraph<FB::VariableElimination>()(r0, sp0); FB::UpdateGraph<FB::VariableElimination>()(g0, r0, sp0); ve(sp0, g0); }
+        auto [sp, rules] = mk(ps, 0); if (mode == 2) { auto g2 = FB::MakeGraph<FB::VariableElimination>()(rules, sp); FB::UpdateGraph<FB::VariableElimination>()(g2, rules, sp); ve(sp, g2); }
+        auto g = FB::MakeGraph<FB::VariableElimination>()(rules, sp); FB::UpdateGraph<FB::VariableElimination>()(g, rules, sp); auto [act, val] = ve(sp, g);
         Out o; o.push_back(val); for (auto a : act) o.push_back((double)a); return o; }});
     // SARSOP is not a subject here: under ASan it does not finish within the per-case budget (and does not converge at all on
     // several small problems, see DESIGN §12); its anytime loop is exercised by C03 through the iteration-budget hook.
@@ -190,6 +204,8 @@ void verif::verif_case(Rng & rng, long idx, const std::string &) {
     if (sj.deterministic) {
         A::Seeder::setRootSeed(root); Out d = sj.run(ps, 1);
         emit(sj.name, "reuse", a, d);
+        A::Seeder::setRootSeed(root); Out d2 = sj.run(ps, 2);
+        emit(sj.name, "reuse_same_problem", a, d2);
     }
     // fresh process: the same call, alone, in a new process (nothing ran before it) vs here after everything above
     {
